@@ -24,16 +24,24 @@ type Config struct {
 	InitMetaArea uint32
 	Prealloc     bool
 	Observer     txfile.Observer
+	SyncNone     bool // Options.Sync = SyncNone (the writer issues no fsync)
 }
 
 func (c Config) Options() txfile.Options {
+	mode := txfile.SyncDefault
+	if c.SyncNone {
+		mode = txfile.SyncNone
+	}
 	return txfile.Options{
 		MaxSize: c.MaxSize, PageSize: c.PageSize, InitMetaArea: c.InitMetaArea,
-		Prealloc: c.Prealloc, Sync: txfile.SyncDefault, Observer: c.Observer,
+		Prealloc: c.Prealloc, Sync: mode, Observer: c.Observer,
 	}
 }
 
 func (c Config) String() string {
+	if c.SyncNone {
+		return fmt.Sprintf("ps=%d max=%d meta=%d prealloc=%v sync=none", c.PageSize, c.MaxSize, c.InitMetaArea, c.Prealloc)
+	}
 	return fmt.Sprintf("ps=%d max=%d meta=%d prealloc=%v", c.PageSize, c.MaxSize, c.InitMetaArea, c.Prealloc)
 }
 
@@ -818,6 +826,9 @@ func (e *Engine) apply(op Op) Result {
 		}
 		// a plain reopen passes no options at all: everything is read from the file header
 		opts := txfile.Options{Observer: e.Cfg.Observer}
+		if e.Cfg.SyncNone {
+			opts.Sync = txfile.SyncNone
+		}
 		if op.Flags != 0 {
 			opts.Flags = txfile.Flag(op.Flags)
 			opts.MaxSize = op.MaxSize
